@@ -820,12 +820,29 @@ fn stress_replay_path(o: &Opts, id: &str, k: usize) -> String {
 fn run_stress_child<C: Check>(o: &Opts, k: usize) -> Result<Option<String>, String> {
     let id = C::ID;
     let exe = std::env::current_exe().map_err(|e| e.to_string())?;
-    let out = std::process::Command::new(exe)
+    let mut child = std::process::Command::new(exe)
         .args(["stress", id, &k.to_string(), "--tier", o.tier.name()])
         .env("VERIF_SEED", o.seed.to_string())
         .env("VERIF_DIR", &o.verif_dir)
-        .output()
+        .stdout(std::process::Stdio::piped())
+        .stderr(std::process::Stdio::piped())
+        .spawn()
         .map_err(|e| e.to_string())?;
+    // wall-clock limit for a child (harness error only, never a VIOLATION): 15 minutes
+    let t0 = std::time::Instant::now();
+    loop {
+        match child.try_wait().map_err(|e| e.to_string())? {
+            Some(_) => break,
+            None => {
+                if t0.elapsed().as_secs() > 900 {
+                    let _ = child.kill();
+                    return Err(format!("stress child {} {} did not finish within 900 s of wall-clock time", id, k));
+                }
+                std::thread::sleep(std::time::Duration::from_millis(50));
+            }
+        }
+    }
+    let out = child.wait_with_output().map_err(|e| e.to_string())?;
     let path = stress_replay_path(o, id, k);
     match out.status.code() {
         Some(0) => Ok(None),
